@@ -16,7 +16,9 @@ Pos2(n1, n2, i, j, co) == IF co = 0 THEN Base2(n2) ELSE IF co = 2 THEN Neg2(n2)
                           ELSE [k \in 1 .. n2 |-> Add(Add(Base2(n2)[k], Sub(Pos1(n1)[i + 1], Base2(n2)[j + 1])), IF co = 3 THEN <<1, 1, 1>> ELSE Zero3)]
 CCat == UNION { UNION { { [op |-> "cat", P1 |-> P1, P2 |-> P2, i |-> i, j |-> j, tr |-> tr, co |-> co,
                            pos1 |-> Pos1(Len(P1)), pos2 |-> Pos2(Len(P1), Len(P2), i, j, co),
-                           ty1 |-> Ty1(Len(P1)), ty2 |-> Ty2(Len(P2)), rad1 |-> Rad(Len(P1), 1), rad2 |-> Rad(Len(P2), 2)]
+                           ty1 |-> Ty1(Len(P1)), ty2 |-> Ty2(Len(P2)), rad1 |-> Rad(Len(P1), 1), rad2 |-> Rad(Len(P2), 2),
+                           \* pre2 > 0: the second tree is first re-rooted at node pre2 with sorting switched off, so that its root is NOT its node 0
+                           pre2 |-> IF (i + j + co) % 3 = 1 /\ Len(P2) >= 2 THEN 1 + ((i + j) % (Len(P2) - 1)) ELSE 0]
                           : i \in Nodes(P1), j \in Nodes(P2), tr \in {0, 1}, co \in {0, 1, 2, 3} }
                         : P2 \in UNION { Topos(n) : n \in 1 .. MaxN2 } } : P1 \in UNION { Topos(n) : n \in 1 .. MaxN1 } }
 AllSeq   == SetToSeq(CRedir \cup CCat)
